@@ -130,5 +130,19 @@ def run(tier):
         corpus.with_bounds(rng, inst)
         inst["maxfun"] = max(inst["maxfun"], 30)
         insts.append(inst)
+    # the first solver runs are also the monitored ones (Trsbox.tla): put bound-constrained linear problems of dimension 6..10 with most bounds active at
+    # the solution in front - their trsbox calls fix several variables in the conjugate-gradient phase AND in the alternative iteration
+    from . import c05
+    rich = []
+    for j in range(8 if tier == "quick" else 100):
+        nn = int(rng.integers(6, 11))
+        status = [str(rng.choice(["free", "atL", "atU"], p=[0.4, 0.3, 0.3])) for _ in range(nn)]
+        st = dict(prop="C05", n=nn, status=status, mclass=str(rng.choice(["square", "over"])), x0class=str(rng.choice(["interior", "onbound"])), scaling=False, nptclass="n+1",
+                  cond=int(rng.choice([1, 10, 100])), reg="none", bounded=True, args=False, special="none")
+        ri = c05.concretise_c05(st, vlib.seed(), 120000 + j)
+        ri.pop("fstar", None)       # C12 judges the kernel calls of the run, not where it ends
+        ri["maxfun"] = 25 * nn
+        rich.append(ri)
+    insts = rich + insts
     return run_kernel_check("C12", tier, ["trsbox"], insts, reps=2 if tier == "quick" else 8, sample_counts={"trsbox_hi": 400 if tier == "quick" else 6000, "trsbox_late": 20000 if tier == "quick" else 60000,
                                            "trsbox_machine": 3000 if tier == "quick" else 40000, "trsbox_machine_runs": 24 if tier == "quick" else 300})
